@@ -7,8 +7,12 @@ limbs [hi, lo].  Comparison results: 1 true, 0 false, 2 raised, 3 not a bool.  A
 results: the new value, -1 ValueError, -2 another error, -3 not a Serial of that width."""
 import dns.exception
 import dns.grange
+import dns.rdataset
 import dns.serial
+import dns.tokenizer
 import dns.ttl
+import dns.zone
+import dns.zonefile
 
 
 def codes(s):
@@ -39,6 +43,40 @@ def ev_range(cs):
     except Exception as ex:
         res = ["err", type(ex).__name__, isinstance(ex, dns.exception.SyntaxError), isinstance(ex, dns.exception.DNSException)]
     return {"op": "range", "text": cs, "res": res}
+
+
+def _zone_ttl(text, rdtype):
+    z = dns.zone.from_text(text, origin="example.", check_origin=False)
+    return z.find_rdataset("@", rdtype).ttl
+
+
+def _update_ttl(t):
+    rds = dns.rdataset.Rdataset(1, 1)
+    rds.update_ttl(t)
+    return rds.ttl
+
+
+# the other documented entry points that take a TTL in text form
+VIAS = [
+    ("tok", lambda t: dns.tokenizer.Tokenizer(t).get_ttl()),
+    ("dollar", lambda t: _zone_ttl("$TTL %s\n@ IN NS ns.\n" % t, "NS")),
+    ("field", lambda t: _zone_ttl("@ %s IN NS ns.\n" % t, "NS")),
+    ("forced", lambda t: dns.zonefile.read_rrsets("10.0.0.1\n", name="a", ttl=t, rdtype="A")[0].ttl),
+    ("default", lambda t: dns.zonefile.read_rrsets("a A 10.0.0.1\n", default_ttl=t)[0].ttl),
+    ("update_ttl", _update_ttl),
+]
+
+
+def ev_via(cs):
+    t = text_of(cs)
+    res = []
+    for _, fn in VIAS:
+        try:
+            v = fn(t)
+            res.append(["ok", codes(str(v)) if type(v) is int else codes("type " + type(v).__name__)])
+        except Exception as ex:
+            res.append(["err", type(ex).__name__, isinstance(ex, dns.exception.DNSException)])
+    return {"op": "via", "text": cs, "vias": [n for n, _ in VIAS], "res": res}
 
 
 def _b(f):
@@ -127,6 +165,8 @@ def events(kind, item):
         return [ev_ttl(item, "make")]
     if kind == "range":
         return [ev_range(item)]
+    if kind == "via":
+        return [ev_via(item)]
     if kind == "srow":
         return ev_srow(item[0], item[1])
     if kind == "s32cmp":
